@@ -186,6 +186,11 @@ EndChecks(tr, i) ==
                             LET r == e.tasktable[j]  t == <<r.o, r.k>>
                             IN t \in DOMAIN X.tasks /\ r.ast = X.tasks[t].ast /\ r.aft = X.tasks[t].aft,
                          "L1", i, "C04.tablerows")
+               (* the recorded start / finish of the returned table are the times the tasks really had *)
+               /\ Report(\A j \in 1..Len(e.tasktable) :
+                            LET r == e.tasktable[j]  t == <<r.o, r.k>>
+                            IN t \in DOMAIN X.tasks => (r.ast = X.tasks[t].ast /\ r.aft = X.tasks[t].aft),
+                         "L1", i, "C03.table")
                /\ Report(End_C07(X), "L1", i, "C07.end")
                /\ Report(Len(e.rows) = e.t \div K, "L1", i, "C12.rows")
                /\ Report(End_C13_complete(e.log), "L1", i, "C13.complete")
